@@ -94,9 +94,9 @@ package req
 //@   at call:AfterFunc#1 assert c.receiveExpire > 0 && timer_d(result) == c.receiveExpire
 //@
 //@ func (*context).cancelSend
-//@   at call:append#1 assert len(result) == len(at("entry", c.s.sendQ)) - 1
-//@   at call:append#1 assert forall(j, 0, i, result[j] == at("entry", c.s.sendQ)[j])
-//@   at call:append#1 assert forall(j, i, len(result), result[j] == at("entry", c.s.sendQ)[j+1])
+//@   before return#1 assert len(c.s.sendQ) == len(at("entry", c.s.sendQ)) - 1
+//@   before return#1 assert forall(j, 0, i, c.s.sendQ[j] == at("entry", c.s.sendQ)[j])
+//@   before return#1 assert forall(j, i, len(c.s.sendQ), c.s.sendQ[j] == at("entry", c.s.sendQ[j+1]))
 //@
 //@ func (*socket).OpenContext
 //@   ghost cl = s.closed at call:Lock#1
